@@ -105,6 +105,15 @@ class Report:
         ks = {(k["property"], k["key"]) for k in known}
         return any(o.verdict == "violation" and (self.prop, o.key) not in ks for o in self.obl)
 
+    def preview(self) -> int:
+        """the exit status finish() would give, without printing or writing anything"""
+        known, _ = load_known()
+        ks = {(k["property"], k["key"]) for k in known}
+        fresh = [o for o in self.obl if o.verdict == "violation" and (self.prop, o.key) not in ks]
+        if self.undecided_msgs or (self.floor_misses and not fresh):
+            return 2
+        return 1 if fresh else 0
+
     # ------------------------------------------------------------ finishing
     def finish(self, selftest: Optional[dict] = None) -> int:
         known, fixed = load_known()
